@@ -23,6 +23,7 @@ pub struct Params {
     pub scenario: Option<String>,
     /// replay / shrinking: stop the random phase after this many operations
     pub cut: Option<usize>,
+    pub no_poison: bool,
 }
 
 /// what a history contained, for the per-property non-triviality rules
@@ -71,7 +72,7 @@ pub struct HistResult {
     pub hash: u64,
     pub flags: Flags,
     pub violations: Vec<Violation>,
-    pub tail: Vec<String>,
+    pub raw_tail: Vec<world::Ev>,
     pub inconclusive: Option<String>,
     pub stats: Rc<World>,
     pub desc: String,
@@ -1518,7 +1519,7 @@ pub fn run_history(p: &Params, hist_index: u64) -> HistResult {
     let mut h = Hist::new(seed, p.trace);
     let w = h.w.clone();
     // fresh memory is filled with 0xA5 so that a never-written element is deterministically invalid
-    alloc::set_poison(true);
+    alloc::set_poison(!p.no_poison);
     let kinds = kinds_for(p.prop);
     let kind = p.kind.unwrap_or_else(|| *h.rng.pick(kinds));
     let small = p.small;
@@ -1586,6 +1587,13 @@ pub fn run_history(p: &Params, hist_index: u64) -> HistResult {
     finish_result(h)
 }
 
+impl HistResult {
+    /// the last boundary events, rendered
+    pub fn tail(&self) -> Vec<String> {
+        self.raw_tail.iter().map(|e| format!("{} {} {} {}", e.clock, world::ev_name(e.code), e.a as i64, e.b)).collect()
+    }
+}
+
 pub fn finish_result(mut h: Hist) -> HistResult {
     let w = h.w.clone();
     // never leave anything alive that calls back into a world that is gone
@@ -1597,7 +1605,7 @@ pub fn finish_result(mut h: Hist) -> HistResult {
     h.flags.slot_reuse = w.stats.slot_reuse.get() as u32;
     h.flags.continuation_polls = h.continuation_polls;
     let violations = w.viol.borrow().clone();
-    let tail: Vec<String> = w.ring.borrow().iter().map(|e| format!("{} {} {} {}", e.clock, world::ev_name(e.code), e.a as i64, e.b)).collect();
+    let raw_tail: Vec<world::Ev> = w.ring.borrow().clone();
     world::install(None);
     HistResult {
         kind: h.kind,
@@ -1606,7 +1614,7 @@ pub fn finish_result(mut h: Hist) -> HistResult {
         hash: h.hash,
         flags: h.flags.clone(),
         violations,
-        tail,
+        raw_tail,
         inconclusive: h.aborted.clone(),
         stats: w,
         desc: h.desc.clone(),
